@@ -1307,3 +1307,11 @@ V("trap-c12-is-literal", "C12", "fire", GE, "    if isinstance(size, tuple) and 
   what="`len(size) is 2`: identity of small ints is an implementation detail")
 V("trap-c05-max-of-two", "C05", "fire", ND, "        cov_x = utils.matrix_block(self.covariance, X, X)\n", "        cov_x = utils.matrix_block(self.covariance, X, X)\n        _scale = np.max(np.abs(cov_x), np.abs(cov_x).T)\n", rule="TRAP.max-of-two",
   what="np.max with two arrays (the second one is taken as the axis)", accept_inconclusive=True)
+
+for _i in [1, 2, 3, 4, 5, 6, 7, 8, 10, 11, 12, 13, 14, 15, 16, 17, 18, 19, 20]:
+    VARIANTS.append(dict(id="extra-param-c%02d" % _i, prop="C%02d" % _i, expect="silent", rule=None, edits=[("@extra_param",)],
+                         what="every function gets a trailing `_verbose=False` parameter guarding a logger call"))
+
+for _i in [1, 2, 3, 4, 5, 6, 7, 8, 10, 11, 12, 13, 14, 15, 16, 17, 18, 19, 20]:
+    VARIANTS.append(dict(id="try-reraise-c%02d" % _i, prop="C%02d" % _i, expect="silent", rule=None, edits=[("@try_reraise",)],
+                         what="every function body wrapped in try / except Exception: log; raise"))
